@@ -523,3 +523,156 @@ Proof.
 Qed.
 Lemma lifecycle_eqb_spec a b : lifecycle_eqb a b = true <-> a = b.
 Proof. destruct a, b; cbn; split; congruence. Qed.
+
+(** * 5. Loop-level facts about the member requests (C11) *)
+Section LoopFacts.
+  Variable force : bool.
+  Local Notation c := (Build_cfg FObjectSet force).
+
+  Definition ns_ok (ow : owner) (e : ev) : Prop :=
+    oi_ns (ow_id ow) <> 0 -> k_ns (ev_key e) = oi_ns (ow_id ow) /\ gk_scope (k_gk (ev_key e)) = Some true.
+
+  (** the request names an object of a local phase all of whose objects pass preflight *)
+  Definition written_by (ow : owner) (phs : list phase) (e : ev) : Prop :=
+    exists ph, In ph phs /\ ph_class ph = false /\ In (ev_key e) (phase_keys ow ph) /\
+               (forall p, In p (ph_objects ph) -> preflight_obj FObjectSet ow false p = []).
+
+  Lemma written_by_cons ow ph phs e : written_by ow phs e -> written_by ow (ph :: phs) e.
+  Proof. intros (q & Hq & rest). exists q. split; [now right|exact rest]. Qed.
+
+  Lemma rpm_members_written s ow prev phs : forall sw acc rem sw' evs rem' r,
+    reconcile_phases_m force sw s ow prev phs acc rem = (sw', evs, rem', r) ->
+    Forall (fun e => written_by ow phs e /\ ns_ok ow e) (member_evs evs).
+  Proof.
+    induction phs as [|ph rest IH]; intros sw acc rem sw' evs rem' r H.
+    - cbn in H. injection H as _ <- _ _. constructor.
+    - rewrite rpm_cons in H. destruct (ph_class ph) eqn:Ecl.
+      + destruct (remote_reconcile sw s ph rem) as [[[sw1 e1] rem1] r1] eqn:E1.
+        destruct (remote_reconcile_inv _ _ _ _ _ _ _ _ E1) as (_ & _ & _ & Hev & _).
+        pose proof (only_phase_members _ _ Hev) as Hm1.
+        destruct r1 as [|active failed]; [injection H as _ <- _ _; rewrite Hm1; constructor|].
+        destruct failed; [injection H as _ <- _ _; rewrite Hm1; constructor|].
+        destruct (reconcile_phases_m force sw1 s ow prev rest (acc ++ active) rem1) as [[[sw2 e2] rem2] r2] eqn:E2.
+        injection H as _ <- _ _. rewrite member_evs_app, Hm1. cbn [app].
+        eapply Forall_impl; [|exact (IH _ _ _ _ _ _ _ E2)]. intros e [Hw Hn]. split; [now apply written_by_cons|exact Hn].
+      + destruct (reconcile_phase c idw (sw_w sw) ow prev false (ph_objects ph)) as [[w1 e1] r1] eqn:E1.
+        assert (H1 : Forall (fun e => written_by ow (ph :: rest) e /\ ns_ok ow e) e1).
+        { apply Forall_forall. intros e He. split.
+          - exists ph. split; [now left|]. split; [exact Ecl|]. split.
+            + pose proof (rec_phase_events_in force _ _ _ _ _ _ _ _ E1) as Hin. rewrite Forall_forall in Hin. exact (Hin _ He).
+            + apply (phase_writes_imply_preflight c _ _ _ _ _ _ _ _ _ E1). intros ->. contradiction.
+          - intros Hns. pose proof (phase_writes_ns_bound c _ _ _ _ _ _ _ _ eq_refl Hns E1) as Hb.
+            rewrite Forall_forall in Hb. exact (Hb _ He). }
+        destruct r1 as [e|vs|actual failed]; try (injection H as _ <- _ _; rewrite member_evs_members; exact H1).
+        destruct failed as [|f fs]; [|injection H as _ <- _ _; rewrite member_evs_members; exact H1].
+        cbv zeta in H.
+        match type of H with context [reconcile_phases_m force ?a s ow prev rest ?b ?d] =>
+          destruct (reconcile_phases_m force a s ow prev rest b d) as [[[sw2 e2] rem2] r2] eqn:E2 end.
+        injection H as _ <- _ _. rewrite member_evs_app, member_evs_members. apply Forall_app. split; [exact H1|].
+        eapply Forall_impl; [|exact (IH _ _ _ _ _ _ _ E2)]. intros e [Hw Hn]. split; [now apply written_by_cons|exact Hn].
+  Qed.
+
+  Lemma tpm_members_ns s ow rphs : forall sw sw' evs r,
+    teardown_phases_m force sw s ow rphs = (sw', evs, r) -> Forall (ns_ok ow) (member_evs evs).
+  Proof.
+    induction rphs as [|ph rest IH]; intros sw sw' evs r H.
+    - cbn in H. injection H as _ <- _. constructor.
+    - rewrite tpm_cons in H. destruct (td_step force sw s ow ph) as [[sw1 e1] r1] eqn:E1.
+      assert (H1 : Forall (ns_ok ow) (member_evs e1)).
+      { unfold td_step in E1. destruct (ph_class ph).
+        - destruct (remote_teardown_inv _ _ _ _ _ _ E1) as (_ & _ & _ & Hev & _). rewrite (only_phase_members _ _ Hev). constructor.
+        - destruct (teardown_phase _ idw (sw_w sw) ow (ph_objects ph)) as [[w1 e'] r'] eqn:Et. injection E1 as _ <- _.
+          rewrite member_evs_members. apply Forall_forall. intros e He Hns. unfold teardown_phase in Et.
+          pose proof (teardown_writes_ns_bound c _ _ _ _ _ _ _ _ eq_refl Hns Et) as Hb. rewrite Forall_forall in Hb. exact (Hb _ He). }
+      destruct r1 as [|[|]]; try (injection H as _ <- _; exact H1).
+      destruct (teardown_phases_m force sw1 s ow rest) as [[sw2 e2] r2] eqn:E2. injection H as _ <- _.
+      rewrite member_evs_app. apply Forall_app. split; [exact H1|eapply IH; eauto].
+  Qed.
+End LoopFacts.
+
+(** * 6. Keys: the monitors' boolean views *)
+Lemma nodupb_complete {A} (eqb : A -> A -> bool) (Hspec : forall x y, eqb x y = true <-> x = y) l :
+  NoDup l -> nodupb eqb l = true.
+Proof.
+  induction l as [|x xs IH]; intros H; [reflexivity|]. inversion H; subst. cbn. rewrite IH by assumption.
+  destruct (existsb (eqb x) xs) eqn:E; [|reflexivity]. exfalso. apply existsb_exists in E. destruct E as (y & Hy & Ey).
+  apply Hspec in Ey. subst y. contradiction.
+Qed.
+
+Lemma preflight_obj_same_id f a b cl p : ow_id a = ow_id b -> preflight_obj f a cl p = preflight_obj f b cl p.
+Proof. intros H. unfold preflight_obj, desired_key, check_ns_escalation. now rewrite H. Qed.
+
+Lemma same_spec_owner_id m1 m0 : same_spec m1 m0 -> ow_id (as_owner m1) = ow_id (as_owner m0).
+Proof. intros (Hid & _). cbn. exact Hid. Qed.
+
+(** * 7. The member requests of a pass *)
+Section Members.
+  Variable force : bool.
+
+  Lemma after_loop2_members mem0 mem1 sw2 pre pevs rem pr evs r :
+    Forall (keeps2 mem0) pre -> after_loop2 mem1 sw2 pre pevs rem pr evs r -> member_evs evs = member_evs pevs.
+  Proof.
+    intros Hpre Hal. pose proof (keeps2_no_members _ _ Hpre) as Hp. unfold after_loop2 in Hal.
+    destruct pr as [e| | |ctrlof failed].
+    - destruct (is_collision e).
+      + destruct Hal as (ok & -> & _). rewrite !member_evs_app, Hp. cbn. now rewrite app_nil_r.
+      + destruct Hal as [-> _]. now rewrite member_evs_app, Hp.
+    - destruct Hal as [-> _]. now rewrite member_evs_app, Hp.
+    - destruct Hal as (ok & -> & _). rewrite !member_evs_app, Hp. cbn. now rewrite app_nil_r.
+    - destruct Hal as (ok & -> & _). rewrite !member_evs_app, Hp, (gets_no_members _ (paused_reads_gets _ _)). cbn. now rewrite app_nil_r.
+  Qed.
+
+  Lemma stopped2_members sw mem0 sw' evs : stopped2 sw mem0 sw' evs -> member_evs evs = [].
+  Proof.
+    intros (_ & _ & _ & pre & reads & post & -> & Hpre & Hpost & Hreads).
+    rewrite !member_evs_app, (keeps2_no_members _ _ Hpre), (keeps2_no_members _ _ Hpost).
+    destruct Hreads as [->|[_ ->]]; [reflexivity|]. now rewrite (gets_no_members _ (paused_reads_l_gets _ _ _ _)).
+  Qed.
+
+  (** every member request of any pass stays within the namespace of a namespaced ObjectSet *)
+  Lemma pass_members_ns sw k ns n mem0 sw' evs r :
+    find_set (sw_sets sw) k ns n = Some mem0 ->
+    objectset_pass force sw k ns n = (sw', evs, r) ->
+    Forall (ns_ok (as_owner mem0)) (member_evs evs).
+  Proof.
+    intros Hfind H.
+    destruct (cond_true (os_conds mem0) CArchived) eqn:Harch.
+    { rewrite (C06_archived_not_reconciled force _ _ _ _ _ Hfind Harch) in H. injection H as _ <- _. constructor. }
+    destruct (os_deleting mem0 || lifecycle_eqb (os_life mem0) LArchived) eqn:Hgo.
+    { assert (Hg : is_going mem0).
+      { split; [exact Harch|]. apply orb_true_iff in Hgo. destruct Hgo as [Hg|Hg]; [now left|right]. destruct (os_life mem0); try discriminate; reflexivity. }
+      pose proof (objectset_pass_going force _ _ _ _ _ _ _ _ Hfind Hg H) as Hd.
+      destruct (deletion_pass_inv force _ _ _ _ _ Hd) as (swd & tevs & td & Htd & Hm & _). rewrite Hm.
+      unfold teardown_of in Htd. destruct (os_fin mem0); [|injection Htd as _ <- _; constructor].
+      destruct (os_orphan mem0); [injection Htd as _ <- _; constructor|]. eapply tpm_members_ns; eauto. }
+    apply orb_false_iff in Hgo. destruct Hgo as [Hdel Hl].
+    assert (Hact : is_active mem0).
+    { split; [exact Harch|]. split; [exact Hdel|]. intros E. rewrite E in Hl. discriminate. }
+    destruct (objectset_pass_active2 force _ _ _ _ _ _ _ _ Hfind Hact H) as [Hs|Hr].
+    - rewrite (stopped2_members _ _ _ _ Hs). constructor.
+    - destruct Hr as (mem1 & sw1 & sw2 & pevs & rem & pr & pre & Hs & _ & _ & _ & _ & _ & _ & Hrp & _ & _ & _ & Hpre & Hal).
+      rewrite (after_loop2_members _ _ _ _ _ _ _ _ _ Hpre Hal).
+      eapply Forall_impl; [|exact (rpm_members_written force _ _ _ _ _ _ _ _ _ _ _ Hrp)].
+      intros e [_ Hn]. unfold ns_ok in *. now rewrite <- (same_spec_owner_id _ _ Hs).
+  Qed.
+
+  (** every member request of an active pass names an object of a local phase of the ObjectSet all of whose
+      objects pass preflight, and the desired keys are pairwise distinct *)
+  Lemma active_members_written sw k ns n mem0 sw' evs r :
+    find_set (sw_sets sw) k ns n = Some mem0 -> is_active mem0 ->
+    objectset_pass force sw k ns n = (sw', evs, r) ->
+    member_evs evs = [] \/
+    (desired_keys_nodup mem0 /\ Forall (written_by (as_owner mem0) (os_phases mem0)) (member_evs evs)).
+  Proof.
+    intros Hfind Hact H.
+    destruct (objectset_pass_active2 force _ _ _ _ _ _ _ _ Hfind Hact H) as [Hs|Hr].
+    - left. eapply stopped2_members; eauto.
+    - right. destruct Hr as (mem1 & sw1 & sw2 & pevs & rem & pr & pre & Hs & _ & _ & _ & _ & _ & Hdup & Hrp & _ & _ & _ & Hpre & Hal).
+      split; [eapply desired_keys_nodup_same; [exact Hs|now apply dup_zero_nodup]|].
+      rewrite (after_loop2_members _ _ _ _ _ _ _ _ _ Hpre Hal).
+      eapply Forall_impl; [|exact (rpm_members_written force _ _ _ _ _ _ _ _ _ _ _ Hrp)].
+      intros e [(ph & Hin & Hc & Hk & Hp) _]. pose proof Hs as (_ & Hph & _).
+      exists ph. split; [now rewrite <- Hph|]. split; [exact Hc|]. split; [now rewrite <- (phase_keys_same _ _ Hs)|].
+      intros p Hpi. rewrite <- (Hp p Hpi). apply preflight_obj_same_id. symmetry. now apply same_spec_owner_id.
+  Qed.
+End Members.
